@@ -1484,8 +1484,9 @@ def _setstate(self, state: dict[str, Any]) -> None:  # noqa: D417
     Args:
         state (dict): State parameter to set the object
     """
-    self._tensordict = state.get("tensordict")
-    self._non_tensordict = state.get("non_tensordict")
+    # write to the instance dict directly: a frozen tensorclass rejects attribute assignment
+    self.__dict__["_tensordict"] = state.get("tensordict")
+    self.__dict__["_non_tensordict"] = state.get("non_tensordict")
 
 
 def _getattr(self, item: str, **kwargs) -> Any:
